@@ -26,6 +26,7 @@ theorem ackCarriesApplyResult_expected : ackCarriesApplyResult = true := by rfl
 /-- a flush signals the raft snapshot after the flushed table is in the data files, with the
 committed index frozen from before the table switch -/
 theorem snapSignalAfterCommit_expected : snapSignalAfterCommit = true := by rfl
+theorem snpCapturedOnce_expected : snpCapturedOnce = true := by rfl
 theorem flagFrozenAcrossFlush_expected : flagFrozenAcrossFlush = true := by rfl
 theorem flushEvents_expected : flushEvents = ["flag0", "switch", "commit", "walremove", "signal", "flag1"] := by rfl
 
